@@ -38,3 +38,5 @@ Definition assets_list (pr : peer_state) : list (N * N * N) :=
 Definition cache_list (pr : peer_state) : list (N * N * N) :=
   (fun '(key, v) => (key `mod` 4, key `div` 4, v)) <$> map_to_list (h_cache pr).
 Definition cache_lookup (pr : peer_state) (c : aclass) (a : uuid) : option N := h_cache pr !! akey (KClass c) a.
+
+Definition pending_list (pr : peer_state) : list (aclass * uuid * peer) := d_pending pr.
